@@ -82,6 +82,22 @@ where
     returns `None`.
     */
     fn current(&self) -> Option<(&Self::Key, &Vec<u8>)>;
+
+    /**
+    Take the error, if there is one, that stopped the iterator during a `next` or `prev` call.
+
+    `next` and `prev` cannot report errors through their return value. An iterator that hits a read
+    error while moving becomes invalid and keeps the error until it is taken with this method.
+    Callers that need to tell the end of the data from a failure check this after the iterator
+    became invalid.
+
+    # Legacy
+
+    This is analogous to `Iterator::status()` in LevelDB.
+    */
+    fn take_error(&mut self) -> Option<Self::Error> {
+        None
+    }
 }
 
 /**
@@ -182,6 +198,10 @@ impl RainDbIterator for CachingIterator {
     fn current(&self) -> Option<(&Self::Key, &Vec<u8>)> {
         self.cached_entry.as_ref().map(|entry| (&entry.0, &entry.1))
     }
+
+    fn take_error(&mut self) -> Option<Self::Error> {
+        self.iterator.take_error()
+    }
 }
 
 /// Enum for indicating the direction of iteration.
@@ -240,6 +260,9 @@ pub struct DatabaseIterator {
 
     /// A cached value. This value does not necessarily correlate to the `cached_key` field.
     cached_value: Option<Vec<u8>>,
+
+    /// The error that stopped the iterator during a `next` or `prev` call if there was one.
+    step_error: Option<RainDBError>,
 }
 
 /// Crate-only methods
@@ -263,6 +286,7 @@ impl DatabaseIterator {
             bytes_until_read_sampling: 0,
             cached_user_key: None,
             cached_value: None,
+            step_error: None,
             compaction_worker,
         }
     }
@@ -305,6 +329,21 @@ impl DatabaseIterator {
         }
 
         self.bytes_until_read_sampling -= bytes_read;
+    }
+
+    /**
+    Stop iterating if one of the underlying iterators failed while it was being moved.
+
+    Without this the merged view would silently lack the entries of the failed iterator.
+    */
+    fn invalidate_on_inner_error(&mut self) {
+        if let Some(inner_error) = self.inner_iter.get_error() {
+            self.step_error = Some(inner_error);
+            self.is_valid = false;
+            self.cached_user_key = None;
+            self.cached_value = None;
+            self.direction = DbIterationDirection::Forward;
+        }
     }
 
     /// Picks a random number of bytes that can be read before a compaction is scheduled.
@@ -465,6 +504,12 @@ impl RainDbIterator for DatabaseIterator {
         if self.inner_iter.is_valid() {
             self.find_next_client_entry(false);
 
+            // Skipping hidden entries moves the underlying iterators and can fail as well
+            if let Some(step_error) = self.inner_iter.get_error() {
+                self.is_valid = false;
+                return Err(step_error);
+            }
+
             return Ok(());
         }
 
@@ -486,6 +531,12 @@ impl RainDbIterator for DatabaseIterator {
         if self.inner_iter.is_valid() {
             self.find_next_client_entry(false);
 
+            // Skipping hidden entries moves the underlying iterators and can fail as well
+            if let Some(step_error) = self.inner_iter.get_error() {
+                self.is_valid = false;
+                return Err(step_error);
+            }
+
             return Ok(());
         }
 
@@ -504,6 +555,12 @@ impl RainDbIterator for DatabaseIterator {
             return Err(seek_error);
         }
         self.find_prev_client_entry();
+
+        // Skipping hidden entries moves the underlying iterators and can fail as well
+        if let Some(step_error) = self.inner_iter.get_error() {
+            self.is_valid = false;
+            return Err(step_error);
+        }
 
         Ok(())
     }
@@ -544,6 +601,7 @@ impl RainDbIterator for DatabaseIterator {
         }
 
         self.find_next_client_entry(true);
+        self.invalidate_on_inner_error();
 
         if !self.is_valid() {
             return None;
@@ -578,6 +636,7 @@ impl RainDbIterator for DatabaseIterator {
         }
 
         self.find_prev_client_entry();
+        self.invalidate_on_inner_error();
 
         if !self.is_valid() {
             return None;
@@ -601,5 +660,9 @@ impl RainDbIterator for DatabaseIterator {
                 ));
             }
         }
+    }
+
+    fn take_error(&mut self) -> Option<Self::Error> {
+        self.step_error.take().or_else(|| self.inner_iter.get_error())
     }
 }
